@@ -14,6 +14,16 @@ claimed = {
          "For every corpus font (glyf, glyf with a raw table physically last, CFF, CID-keyed; Go Regular in the thorough tier) and every k in 0..len(file): writers that accept k bytes then reject or short-write (Write, WriteTrueTypePDF / WriteOpenTypeCFFPDF, cff.Font.Write), the file truncated to k bytes (ReaderAt and streaming), a ReaderAt failing for every access touching offset >= k (with and without partial data) and a stream failing after k bytes. Oracle: error iff the fault was hit, byte count == bytes the destination accepted, no panic.",
          "Fault model: permanent failure from offset k; io.Writer/io.ReaderAt contracts are respected by the injected devices. Corpus fonts are small (1-2 kB) except Go Regular.",
          "DESIGN.md 4/C18"),
+ "C03": ("model_checking",
+         "bounded exhaustive enumeration of table maps / generator fonts on the real writer, judged by an independent container walker and by golang.org/x/image as second reader",
+         "header.Write is run on every map of up to 3 (quick) / 4 (thorough) tags from a 7-tag alphabet x table lengths around the 4-byte alignment x scaler types x nil entries; each output is walked by refsfnt (sorted directory, count and binary-search fields, alignment, bounds, overlap, per-table checksums, 0xB1B0AFBA), read back with header.Read/ReadTableBytes and written a second time. Every generator font (outline kind x glyph count x shapes x cmap x layout tables) is written with Font.Write, walked, and cross-read with x/image (glyph count, units/em, GlyphIndex, advances, names, outlines).",
+         "Alphabet bounds as listed; a table named head has >= 12 bytes; x/image rounds CFF coordinates to whole units (tolerance 0.5 there).",
+         "DESIGN.md 4/C03"),
+ "C01": ("model_checking",
+         "bounded exhaustive enumeration of font values (structure product x metadata deviations <= d) and of accepted files, against an explicit normal form",
+         "Every generator font (3 outline kinds x glyph counts x shape rotations x names/encodings/FD layouts x 4 cmap layouts x 5 layout-table combinations, every metadata field deviating to each of its boundary values, d=1 quick / d=2 thorough) is written and read: the result must equal normalForm(F) field by field, a second cycle must be a fixed point with identical bytes, and two writes of one font must agree. Accepted files: 12 gofont TTFs, x/image test fonts, and all 2^11 subsets of optional tables removed from a generated glyf and CFF file.",
+         "normalForm encodes the documented representation limits (Version to 3 decimals, angle to 16.16, naming rules for bold/italic/regular, nil widths == zero widths, synthetic liga table); ScriptList keys are generated in canonical -x- form; byte reproducibility is observed over Go's randomised map iteration (two writes per font), not yet over a controlled map-order seam.",
+         "DESIGN.md 4/C01"),
 }
 checks = []
 na = []
